@@ -411,9 +411,14 @@ fn gen_ops_lockmix(r: &mut Rng, vv: u64) -> Vec<Op> {
     if r.chance(4, 5) {
         ops.push(Op::CleanupLocks);
     }
-    if r.chance(1, 3) {
+    if r.chance(1, 2) {
+        // another transaction takes over the row whose lock has timed out; the first owner then writes it again
         ops.push(Op::Begin);
         ops.push(Op::Update(Some(2), Cond::Eq(0, first), 1, r.below(vv)));
+        if r.chance(2, 3) {
+            ops.push(if r.chance(2, 3) { Op::Update(Some(1), Cond::Eq(0, first), 1, r.below(vv)) } else { Op::Delete(Some(1), Cond::Eq(0, first)) });
+            ops.push(Op::Update(Some(2), Cond::Eq(0, first), 0, first));
+        }
     }
     ops.push(if r.chance(1, 2) { Op::Commit(1) } else { Op::Rollback(1) });
     ops.push(Op::Begin);
@@ -517,6 +522,15 @@ fn main() {
             vec![
                 Op::Insert(None, 1, 1), Op::Insert(None, 2, 2), Op::Begin, Op::Update(Some(1), Cond::Eq(0, 1), 1, 0), Op::Advance(1001), Op::Begin,
                 Op::Update(Some(2), Cond::Ge(0, 1), 1, 2), Op::Commit(1), Op::Update(None, Cond::Eq(0, 1), 1, 1), Op::Begin, Op::Delete(Some(3), Cond::Eq(0, 2)), Op::Commit(2),
+            ],
+        ),
+        (
+            "corpus lock taken over after expiry, first owner comes back: T1 updates row 1; 1001 ms (lock timed out); T2 updates row 1; T1 updates row 1 again -> must get LockConflict (T2 holds the row); T2 commit; T1 rollback",
+            1,
+            vec![
+                Op::Insert(None, 1, 1), Op::Begin, Op::Begin, Op::Update(Some(1), Cond::True, 1, 2), Op::Advance(1001),
+                Op::Update(Some(2), Cond::True, 1, 0), Op::Update(Some(1), Cond::True, 1, 1), Op::Delete(Some(1), Cond::True),
+                Op::Update(Some(2), Cond::True, 0, 0), Op::Commit(2), Op::Rollback(1),
             ],
         ),
         (
@@ -637,7 +651,22 @@ fn main() {
             ],
         ),
     ];
-    for (what, bm, ops) in &bcorpus {
+    let bcorpus2: Vec<(&str, u64, Vec<Op>)> = vec![
+        (
+            "corpus budget regression (318ccde5): budget 2, btree+hash on b; rows (2,0) (2,0); begin T; tx_update(a>=1, b:=1) frees key 0; plain insert(1,2) takes the freed entry; rollback(T) must restore rows AND B-tree entries (Lt/Ge(b) list both rows)",
+            2,
+            vec![
+                Op::CreateBtree(1), Op::CreateIndex(1), Op::Insert(None, 2, 0), Op::Insert(None, 2, 0), Op::Begin,
+                Op::Update(Some(1), Cond::Ge(0, 1), 1, 1), Op::Insert(None, 1, 2), Op::Rollback(1),
+            ],
+        ),
+        (
+            "corpus budget regression, delete: budget 1, btree on b; row (1,0); begin T; tx_delete(True) frees key 0; plain insert(2,1) takes it; rollback(T): row 1 back in Lt/Ge(b)",
+            1,
+            vec![Op::CreateBtree(1), Op::Insert(None, 1, 0), Op::Begin, Op::Delete(Some(1), Cond::True), Op::Insert(None, 2, 1), Op::Rollback(1), Op::Begin, Op::Update(Some(2), Cond::True, 0, 0), Op::Commit(2)],
+        ),
+    ];
+    for (what, bm, ops) in bcorpus.iter().chain(bcorpus2.iter()) {
         let (t, _h, _nt) = run_case_b(ops, 30, 3, 8, Some(*bm), &mut dist);
         bud.push(&t, what, true);
     }
@@ -673,6 +702,32 @@ fn main() {
                 Op::Insert(None, rng.below(vv), rng.below(vv))
             });
         }
+        let (t, h, nt) = run_case_b(&ops, 30, vv, 8, Some(bm), &mut dist);
+        bud.push(&t, &format!("budget={bm} {h}"), nt);
+    }
+    // stream "the undo needs entries somebody else took": one open transaction frees B-tree keys (update / delete of
+    // the last row under a key), PLAIN inserts / updates add new keys while it is open, then it rolls back
+    for _ in 0..args.budget(80, 4000) {
+        let vv = 3;
+        let bm = rng.range(1, 3);
+        let mut ops = vec![Op::CreateBtree(1)];
+        if rng.chance(1, 2) {
+            ops.push(Op::CreateIndex(rng.below(2)));
+        }
+        let b0 = rng.below(vv);
+        for _ in 0..rng.range(1, 3) {
+            ops.push(Op::Insert(None, rng.below(vv), b0));
+        }
+        ops.push(Op::Begin);
+        for _ in 0..rng.range(1, 2) {
+            ops.push(if rng.chance(2, 3) { Op::Update(Some(1), gen_cond(&mut rng, vv, 0), 1, rng.below(vv)) } else { Op::Delete(Some(1), gen_cond(&mut rng, vv, 0)) });
+        }
+        for _ in 0..rng.range(1, 3) {
+            ops.push(if rng.chance(2, 3) { Op::Insert(None, rng.below(vv), rng.below(vv)) } else { Op::Update(None, gen_cond(&mut rng, vv, 0), 1, rng.below(vv)) });
+        }
+        ops.push(if rng.chance(4, 5) { Op::Rollback(1) } else { Op::Commit(1) });
+        ops.push(Op::Insert(None, rng.below(vv), rng.below(vv)));
+        dist.hit("budget.undo_stream");
         let (t, h, nt) = run_case_b(&ops, 30, vv, 8, Some(bm), &mut dist);
         bud.push(&t, &format!("budget={bm} {h}"), nt);
     }
